@@ -12,7 +12,7 @@ use std::{
     io::Write as _,
     path::Path,
     sync::{
-        Mutex,
+        Arc, Mutex,
         atomic::{AtomicUsize, Ordering},
     },
 };
@@ -802,6 +802,7 @@ struct ImgInfo {
     labels: Vec<&'static str>,
     outcome: &'static str,
     key: u64,
+    returned: usize,
 }
 
 fn diff(a: &Obs, b: &Obs) -> String {
@@ -848,6 +849,7 @@ fn check_image(rec: &Rec, crash: usize, pat: &[Pat], missing_file: bool, info: &
     let returned = rec.commits.iter().filter(|c| c.end <= crash).count();
     // the commit in progress counts only if it has issued at least one syscall
     let inprog = rec.commits.get(returned).filter(|c| c.start < crash);
+    info.returned = returned;
     let kept = pend.iter().enumerate().filter(|(j, _)| pat.get(*j).is_some_and(|p| *p != Pat::Lost)).count();
     let lost = pend.len() - pend.iter().enumerate().filter(|(j, _)| pat.get(*j) == Some(&Pat::Kept)).count();
     let torn = pat.iter().any(|p| matches!(p, Pat::Prefix(_) | Pat::Suffix(_)));
@@ -1003,6 +1005,93 @@ fn check_image(rec: &Rec, crash: usize, pat: &[Pat], missing_file: bool, info: &
     Ok(())
 }
 
+/// Images whose check did not come back (the code under test looped); after `HANG_LIMIT` of them the
+/// remaining images are skipped so that the failure can be reported at all.
+static HANGS: AtomicUsize = AtomicUsize::new(0);
+const HANG_LIMIT: usize = 3;
+const HANG_SECS: u64 = 60;
+
+fn panic_failure(m: &str, l: &str, ctx: &str) -> Failure {
+    Failure::new(
+        format!("panic: {} @ {}", m.chars().take(120).collect::<String>(), vcommon::short_loc(l)),
+        format!("panic `{m}` at {l}; {ctx}"),
+    )
+}
+
+type Job = (Arc<Rec>, usize, Vec<Pat>, bool);
+
+/// A long-lived helper thread owned by one calling thread (spawning one per image is far too slow).
+struct Helper {
+    tx: std::sync::mpsc::Sender<Job>,
+    rx: std::sync::mpsc::Receiver<(ImgInfo, CheckResult)>,
+}
+
+impl Helper {
+    fn spawn() -> Option<Helper> {
+        let (tx, jrx) = std::sync::mpsc::channel::<Job>();
+        let (rtx, rx) = std::sync::mpsc::channel();
+        std::thread::Builder::new()
+            .stack_size(64 << 20)
+            .spawn(move || {
+                while let Ok((rec, crash, pat, missing)) = jrx.recv() {
+                    let mut ii = ImgInfo::default();
+                    let r = vcommon::catch(|| check_image(&rec, crash, &pat, missing, &mut ii));
+                    let r = match r {
+                        Ok(r) => r,
+                        Err((m, l)) => Err(panic_failure(&m, &l, &format!("crash point {crash}, pattern {pat:?}"))),
+                    };
+                    if rtx.send((ii, r)).is_err() {
+                        break;
+                    }
+                }
+            })
+            .ok()?;
+        Some(Helper { tx, rx })
+    }
+}
+
+thread_local! {
+    static HELPER: std::cell::RefCell<Option<Helper>> = const { std::cell::RefCell::new(None) };
+}
+
+/// `check_image` on the calling thread's helper thread: a panic becomes a failure, and so does a
+/// check that has not returned after `HANG_SECS` (a normal check takes about a millisecond; the
+/// helper thread is abandoned in that case and a new one is started for the next image).
+fn guarded(rec: &Arc<Rec>, crash: usize, pat: &[Pat], missing: bool) -> (ImgInfo, CheckResult) {
+    if HANGS.load(Ordering::Relaxed) >= HANG_LIMIT {
+        let mut ii = ImgInfo::default();
+        ii.labels.push("skipped_after_hangs");
+        return (ii, Ok(()));
+    }
+    HELPER.with(|h| {
+        let mut h = h.borrow_mut();
+        if h.is_none() {
+            *h = Helper::spawn();
+        }
+        let Some(helper) = h.as_ref() else {
+            return (ImgInfo::default(), Err(Failure::new("harness: cannot spawn a thread", "")));
+        };
+        if helper.tx.send((rec.clone(), crash, pat.to_vec(), missing)).is_err() {
+            *h = None;
+            return (ImgInfo::default(), Err(Failure::new("harness: helper thread died", "")));
+        }
+        match helper.rx.recv_timeout(std::time::Duration::from_secs(HANG_SECS)) {
+            Ok(x) => x,
+            Err(_) => {
+                *h = None;
+                HANGS.fetch_add(1, Ordering::Relaxed);
+                (
+                    ImgInfo::default(),
+                    Err(Failure::new(
+                        "reopening, walking or extending the recovered graph did not terminate",
+                        format!("crash point {crash}, pattern {pat:?}: no result after {HANG_SECS}s"),
+                    )),
+                )
+            }
+        }
+    })
+}
+
 // ---------------------------------------------------------------------------------------------
 // explore part: (workload, image selectors) as a proptest case
 
@@ -1052,7 +1141,7 @@ fn pattern_of(rec: &Rec, crash: usize, p: &Pick) -> Vec<Pat> {
 }
 
 fn check_case(case: &Case, info: &mut CaseInfo) -> CheckResult {
-    let rec = record(&case.ops)?;
+    let rec = Arc::new(record(&case.ops)?);
     if rec.commits.len() >= 3 {
         info.label("commits>=3");
     } else {
@@ -1064,8 +1153,8 @@ fn check_case(case: &Case, info: &mut CaseInfo) -> CheckResult {
     for p in &case.picks {
         let crash = idx(p.crash, rec.evs.len() + 1);
         let pat = pattern_of(&rec, crash, p);
-        let mut ii = ImgInfo::default();
-        check_image(&rec, crash, &pat, false, &mut ii)?;
+        let (ii, r) = guarded(&rec, crash, &pat, false);
+        r?;
         if ii.nontrivial && rec.commits.len() >= 3 {
             info.nontrivial();
         }
@@ -1130,15 +1219,11 @@ fn run_enum(ctx: &Ctx, rep: &mut Report<'_>, name: &str) {
                 std::process::exit(2);
             }
         };
-        let r = vcommon::catch(|| {
-            let rec = record(&case.ops)?;
-            ensure!(case.crash <= rec.evs.len(), "harness: replay crash point beyond the log", "{} > {}", case.crash, rec.evs.len());
-            let mut ii = ImgInfo::default();
-            check_image(&rec, case.crash, &case.pattern, case.missing_file, &mut ii)
-        });
-        let r = match r {
-            Ok(r) => r,
-            Err((m, l)) => Err(Failure::new(format!("panic: {} @ {}", m.chars().take(120).collect::<String>(), vcommon::short_loc(&l)), format!("panic `{m}` at {l}"))),
+        let r = match vcommon::catch(|| record(&case.ops)) {
+            Ok(Ok(rec)) if case.crash <= rec.evs.len() => guarded(&Arc::new(rec), case.crash, &case.pattern, case.missing_file).1,
+            Ok(Ok(rec)) => Err(Failure::new("harness: replay crash point beyond the log", format!("{} > {}", case.crash, rec.evs.len()))),
+            Ok(Err(fl)) => Err(fl),
+            Err((m, l)) => Err(panic_failure(&m, &l, "while running the workload")),
         };
         match r {
             Ok(()) => println!("replay: part={name} passed"),
@@ -1154,22 +1239,21 @@ fn run_enum(ctx: &Ctx, rep: &mut Report<'_>, name: &str) {
         return;
     }
 
-    let n_random = ctx.pick(4, 120);
+    let n_random = ctx.pick(9, 150);
     let samples = ctx.pick(64, 256);
     let mut workloads = crafted_workloads();
     for j in 0..n_random {
         workloads.push(sample_ops(ctx.seed, &format!("c15/enum/workload/{j}"), 12));
     }
-    let mut recs: Vec<Rec> = Vec::new();
+    let mut recs: Vec<Arc<Rec>> = Vec::new();
     let mut rec_fail: Option<(Failure, EnumCase)> = None;
     for ops in &workloads {
-        let r = vcommon::catch(|| record(ops));
-        let r = match r {
+        let r = match vcommon::catch(|| record(ops)) {
             Ok(r) => r,
-            Err((m, l)) => Err(Failure::new(format!("panic: {} @ {}", m.chars().take(120).collect::<String>(), vcommon::short_loc(&l)), format!("panic `{m}` at {l} while running the workload"))),
+            Err((m, l)) => Err(panic_failure(&m, &l, "while running the workload")),
         };
         match r {
-            Ok(r) => recs.push(r),
+            Ok(r) => recs.push(Arc::new(r)),
             Err(fl) => {
                 if rec_fail.is_none() {
                     rec_fail = Some((
@@ -1217,15 +1301,7 @@ fn run_enum(ctx: &Ctx, rep: &mut Report<'_>, name: &str) {
                         }
                         let mut local: Vec<(ImgInfo, Option<Failure>, usize)> = Vec::new();
                         for (pi, (pat, missing)) in pats.iter().enumerate() {
-                            let mut ii = ImgInfo::default();
-                            let r = vcommon::catch(|| check_image(rec, i, pat, *missing, &mut ii));
-                            let r = match r {
-                                Ok(r) => r,
-                                Err((m, l)) => Err(Failure::new(
-                                    format!("panic: {} @ {}", m.chars().take(120).collect::<String>(), vcommon::short_loc(&l)),
-                                    format!("panic `{m}` at {l}; crash point {i}, pattern {pat:?}"),
-                                )),
-                            };
+                            let (ii, r) = guarded(rec, i, pat, *missing);
                             local.push((ii, r.err(), pi));
                         }
                         let mut st = stats.lock().unwrap();
@@ -1235,10 +1311,10 @@ fn run_enum(ctx: &Ctx, rep: &mut Report<'_>, name: &str) {
                                 *st.labels.entry((*l).to_string()).or_default() += 1;
                             }
                             let k = ii.key ^ (w as u64).wrapping_mul(0x9E37_79B9_7F4A_7C15);
-                            if ii.nontrivial && st.nontrivial.insert(k) && st.samples.len() < 3 && fl.is_none() {
+                            if ii.nontrivial && st.nontrivial.insert(k) && st.samples.len() < 3 && fl.is_none() && ii.returned >= 2 && ii.outcome != "last_returned_commit" {
                                 st.samples.push(json!({
                                     "workload": w, "ops": rec.ops, "crash_point": i, "syscalls": rec.evs.len(),
-                                    "pattern": pats[pi].0, "outcome": ii.outcome,
+                                    "commits_returned": ii.returned, "pattern": pats[pi].0, "outcome": ii.outcome,
                                 }));
                             }
                             if let Some(fl) = fl {
@@ -1358,7 +1434,7 @@ pub fn run(ctx: &Ctx) -> ! {
          non-trivial = workload with >=3 commits and an image whose crash point is strictly inside a commit with >=1 unsynced \
          write kept/torn and >=1 lost/torn",
         || (ops_strategy(12), prop::collection::vec(pick_strategy(), 1..=6)).prop_map(|(ops, picks)| Case { ops, picks }),
-        ctx.pick(600, 20_000),
+        ctx.pick(1500, 30_000),
         check_case,
     );
     rep.finish()
